@@ -1,0 +1,18 @@
+//go:build verif
+// +build verif
+
+package spec
+
+// Exported views of unexported functions, for the verification harness in /verif only.
+// Compiled only with -tags verif; adds no behaviour.
+
+// VerifNormalizeBase exposes normalizeBase.
+func VerifNormalizeBase(in string) string { return normalizeBase(in) }
+
+// VerifNormalizeURI exposes normalizeURI.
+func VerifNormalizeURI(refPath, base string) string { return normalizeURI(refPath, base) }
+
+// VerifDenormalizeRef exposes denormalizeRef.
+func VerifDenormalizeRef(ref *Ref, originalRelativeBase, id string) Ref {
+	return denormalizeRef(ref, originalRelativeBase, id)
+}
